@@ -604,11 +604,15 @@ class Machine:
         if len(want) < 3:
             return ["skip"]
         kw = self.iter_kwargs(op, start, stop, step)
-        oc = self.other_case()
-        other = fresh_objects(oc)
-        if other.propagator is self.obj.propagator:
-            raise Violation("propagator-shared", "two orbits built separately hold the very same propagator object")
-        ref_other = fresh_objects(oc)
+        if op.get("same"):
+            # the second user is the shared orbit itself: two iterations of one object alive at once
+            other, ref_other = self.obj, self.fresh_obj()
+        else:
+            oc = self.other_case()
+            other = fresh_objects(oc)
+            if other.propagator is self.obj.propagator:
+                raise Violation("propagator-shared", "two orbits built separately hold the very same propagator object")
+            ref_other = fresh_objects(oc)
         t = self.clamp(op["t_us"])
         it = self.obj.iter(**kw)
         got = []
@@ -636,7 +640,7 @@ class Machine:
                         got.append(nxt)
         self.check_dates(got, want, f"iter(start={start / 1e6:g}s, stop={stop / 1e6:g}s, step={step / 1e6:g}s) suspended after {k} "
                          f"states while another orbit was used")
-        return ["interleave"]
+        return ["interleave", "interleave:same-object" if op.get("same") else "interleave:other-object"]
 
     def op_clone_self(self, op):
         """From now on the history goes on with a clone of the shared object (stdlib copy / deepcopy, pickle,
@@ -768,6 +772,7 @@ def op_strategy(draw, kind, h_us, span_us):
         d["k"] = draw(st.integers(0, 20))
         d["t_us"] = t()
         d["zip"] = draw(st.booleans())
+        d["same"] = draw(st.integers(0, 2)) == 0
     return d
 
 
